@@ -131,6 +131,8 @@ def _cases():
         ('fancy-gather', lambda c: (sym(c, a5)[sym(c, np.array([4, 0, 0, 2]))], a5[np.array([4, 0, 0, 2])])),
         ('broadcast_to', lambda c: (npshim.broadcast_to(sym(c, m23)[:, :, None], (2, 3, 2)), np.broadcast_to(m23[:, :, None], (2, 3, 2)))),
         ('squeeze', lambda c: (npshim.squeeze(sym(c, m23[:, :, None])), np.squeeze(m23[:, :, None]))),
+        ('squeeze-axis', lambda c: (npshim.squeeze(sym(c, m23[:, None, :, None]), axis=-1), np.squeeze(m23[:, None, :, None], axis=-1))),
+        ('squeeze-axis1', lambda c: (npshim.squeeze(sym(c, m23[:, None, :]), axis=1), np.squeeze(m23[:, None, :], axis=1))),
         ('all-axis1', lambda c: (npshim.all_(sym(c, np.array([[True, True], [True, False]])), axis=1), np.all(np.array([[True, True], [True, False]]), axis=1))),
         ('any-axis1', lambda c: (npshim.any_(sym(c, np.array([[False, False], [True, False]])), axis=1), np.any(np.array([[False, False], [True, False]]), axis=1))),
         ('bool-plus-bool', lambda c: (sym(c, np.array([True, False, False])) + sym(c, np.array([True, True, False])), np.array([True, False, False]) + np.array([True, True, False]))),
@@ -235,6 +237,18 @@ def _cases():
         r *= 2
         return [(y, ry), (m, rm), (z, rz), (v, rv), (x, r)]
     C.append(('derived-array-is-computed-when-the-statement-runs', derived_then_store))
+
+    def asarray_alias(c):
+        x = sym(c, a5.copy())
+        w_ = npshim.asarray(x)
+        w2 = npshim.asarray(x, dtype=float)
+        cp = npshim.array(x)
+        x[1] = 9.0
+        r = a5.copy()
+        rw, rw2, rcp = np.asarray(r), np.asarray(r, dtype=float), np.array(r)
+        r[1] = 9.0
+        return [(w_, rw), (w2, rw2), (cp, rcp)]
+    C.append(('asarray-aliases-array-copies', asarray_alias))
 
     def interval(c):
         t = npshim.arange(-3, 9)
